@@ -708,6 +708,24 @@ func (c *CEnv) index1(base cv, idx T) cv {
 		if b.So == SString {
 			return cv{V: app(SInt, "str.to_code", app(SString, "str.at", b, idx))}
 		}
+	case *MapV:
+		// m[k] in a specification: the stored value (the element type's zero value is not modelled for absent keys:
+		// clauses guard with the key's presence where it matters)
+		if _, live := st.Heap[b.Obj]; !live {
+			st = c.st
+		}
+		cur := st.Heap[b.Obj].(T)
+		var et types.Type
+		if base.T != nil {
+			if mt, ok := base.T.Underlying().(*types.Map); ok {
+				et = mt.Elem()
+			}
+		}
+		vs := ""
+		if et != nil {
+			vs = c.x.e.sortOf(et)
+		}
+		return cv{V: T{S: fmt.Sprintf("(ite (select (has_%s %s) %s) (select (val_%s %s) %s) %s)", cur.So, cur.S, idx.S, cur.So, cur.S, idx.S, c.x.e.reify(st, c.x.tryZero(st, et), et).S), So: vs}, T: et}
 	case *PtrV:
 		pt := base.T.Underlying().(*types.Pointer)
 		return c.index1(cv{V: c.x.e.load(st, b), T: pt.Elem()}, idx)
@@ -914,6 +932,10 @@ func (c *CEnv) callFn(e *Expr) cv {
 		return cv{V: app(c.x.e.sortOf(t), unm, c.term(e.Args[0])), T: t}
 	case "getraw":
 		return cv{V: app(SString, "getraw", c.term(e.Args[0]))}
+	case "unm_Attestation", "unm_GenericClaim", "unm_Prices", "unm_Holders":
+		t := c.x.e.msgTypeByName(strings.TrimPrefix(name, "unm_"))
+		_, unm := c.x.e.marshalFn(t)
+		return cv{V: app(c.x.e.sortOf(t), unm, c.term(e.Args[0])), T: t}
 	case "pow10", "abs_", "max_", "min_", "tquo", "trem", "u64be", "u64dec", "fill32":
 		var args []T
 		for _, a := range e.Args {
